@@ -21,15 +21,15 @@ ENGINES = [
     {"name": "ptdir", "path": "lean/Fbr/PtDir*.lean lean/Fbr/Lemmas/PtDir*.lean lean/Drv/PtDir.lean harness/src/bin/ptdir.rs",
      "serves_properties": ["C16"], "kind_free_text": "Lean 4 model of passthrough/pseudo readdir with cookie cache; differential harness on real directories"},
     {"name": "ptseal", "path": "lean/Fbr/PtSeal*.lean lean/Fbr/Lemmas/PtSeal*.lean lean/Drv/PtSeal.lean harness/src/bin/ptseal.rs",
-     "serves_properties": ["C18"], "kind_free_text": "Lean 4 model of the size-seal checks over a reference host; differential harness on real files"},
+     "serves_properties": ["C15", "C18"], "kind_free_text": "Lean 4 model of the size-seal checks over a reference host; differential harness on real files"},
     {"name": "vfs", "path": "lean/Fbr/Vfs.lean lean/Fbr/Persist.lean lean/Fbr/VfsShow.lean lean/Fbr/Lemmas/Vfs*.lean lean/Drv/Vfs.lean harness/src/vfsrun.rs harness/src/bin/vfs.rs",
-     "serves_properties": ["C07", "C14", "C19"],
+     "serves_properties": ["C07", "C12", "C14", "C19"],
      "kind_free_text": "Lean 4 model of the Vfs mount table, pseudo tree, id mapping, init/destroy, all request methods and save/restore, with invariants proved over arbitrary histories; differential harness running whole mount/umount/request/save/restore histories on the real Vfs (a third of the requests through Server::handle_message) with scripted logging backends"},
     {"name": "ovl", "path": "lean/Fbr/Ovl.lean lean/Fbr/OvlShow.lean lean/Fbr/Lemmas/Ovl*.lean lean/Drv/Ovl.lean harness/src/ovlhost.rs harness/src/bin/ovl.rs",
      "serves_properties": ["C10", "C11"],
      "kind_free_text": "Lean 4 model of OverlayFs (layers as path functions, merge specification, lazy directory loading, copy-up, whiteouts, opaque markers) with theorems over every disk and operation history; differential harness running histories on the real OverlayFs over PassthroughFs layers in temp directories, walking live and freshly constructed instances"},
     {"name": "pthost", "path": "lean/Fbr/Host.lean lean/Fbr/HostRef.lean lean/Fbr/PtHost*.lean lean/Fbr/Lemmas/HostRef*.lean lean/Fbr/Lemmas/PtHost*.lean lean/Drv/PtHost.lean harness/src/pthost/ harness/src/bin/pthost.rs",
-     "serves_properties": ["C05", "C06"],
+     "serves_properties": ["C05", "C06", "C12"],
      "kind_free_text": "Lean 4 transducer model of PassthroughFs (request -> host calls -> reply) over a reference host file system with symlinks and an export inside a sentinel tree; theorems for every request and every reference-host state; differential harness on real directories, ptrace-free syscall comparison through observable effects"},
     {"name": "abi", "path": "lean/Fbr/Abi.lean lean/Fbr/AbiSpec.lean lean/Fbr/Conv.lean lean/Drv/Abi.lean harness/src/bin/abi_probe.rs translator/ tools/kernel_abi.py",
      "serves_properties": ["C13"],
